@@ -141,6 +141,7 @@ type totals struct {
 func exploreAll(run *ev.Run, us []*ledger.Universe, cfg txgraph.Config) totals {
 	var tot totals
 	var mu sync.Mutex
+	cappedUniverses := 0
 	report := func(prop, sig, msg string, u *ledger.Universe, hist []ledger.Event) {
 		if prop != run.Prop {
 			// a side oracle of another property fired: report it under the
@@ -191,6 +192,9 @@ func exploreAll(run *ev.Run, us []*ledger.Universe, cfg txgraph.Config) totals {
 					tot.MaxDepth = st.MaxDepth
 				}
 				tot.Capped = tot.Capped || st.Capped
+				if st.Capped {
+					cappedUniverses++
+				}
 				tot.done++
 				if len(tot.samples) < 6 && st.Sample != "" && i%97 == 0 {
 					tot.samples = append(tot.samples, st.Sample)
@@ -201,6 +205,15 @@ func exploreAll(run *ev.Run, us []*ledger.Universe, cfg txgraph.Config) totals {
 	}
 	for i := range us {
 		if run.Expired() {
+			break
+		}
+		// the verdict is already "violated" many times over: a tree on which
+		// exploration keeps hitting the per-universe violation/state cap is not
+		// explored further (reported as not exhaustive)
+		mu.Lock()
+		stop := cappedUniverses >= 64
+		mu.Unlock()
+		if stop {
 			break
 		}
 		jobs <- i
